@@ -336,28 +336,33 @@ class X12Reader(X12Base):
         X12Base._parse_segment(self, seg_data)
         seg_id = seg_data.get_seg_id()
         if seg_id == 'IEA':
-            if self.loops[-1][0] != 'ISA':
+            if self.loops and self.loops[-1][0] != 'ISA':
                 # Unterminated GS loop
                 err_str = 'Unterminated Loop {}'.format(self.loops[-1][0])
                 self._isa_error('024', err_str)
                 del self.loops[-1]
-            if self.loops[-1][1] != seg_data.get_value('IEA02'):
+            # An IEA without any open loop is reported as an ID mismatch
+            isa_id = self.loops[-1][1] if self.loops else None
+            if not self.loops or isa_id != seg_data.get_value('IEA02'):
                 err_str = 'IEA id={} does not match ISA id={}'.format(\
-                    seg_data.get_value('IEA02'), self.loops[-1][1])
+                    seg_data.get_value('IEA02'), isa_id)
                 self._isa_error('001', err_str)
             if self._int(seg_data.get_value('IEA01')) != self.gs_count:
                 err_str = 'IEA count for IEA02={} is wrong'.format(\
                     seg_data.get_value('IEA02'))
                 self._isa_error('021', err_str)
-            del self.loops[-1]
+            if self.loops:
+                del self.loops[-1]
         elif seg_id == 'GE':
-            if self.loops[-1][0] != 'GS':
+            if self.loops and self.loops[-1][0] != 'GS':
                 err_str = 'Unterminated segment {}'.format(self.loops[-1][1])
                 self._gs_error('3', err_str)
                 del self.loops[-1]
-            if self.loops[-1][1] != seg_data.get_value('GE02'):
+            # A GE without any open loop is reported as an ID mismatch
+            gs_id = self.loops[-1][1] if self.loops else None
+            if not self.loops or gs_id != seg_data.get_value('GE02'):
                 err_str = 'GE id={} does not match GS id={}'.format(\
-                    seg_data.get_value('GE02'), self.loops[-1][1])
+                    seg_data.get_value('GE02'), gs_id)
                 self._gs_error('4', err_str)
             if self._int(seg_data.get_value('GE01')) != self.st_count:
                 err_str = 'GE count of {} for GE02={} is wrong. I count {}'.format(\
@@ -365,13 +370,15 @@ class X12Reader(X12Base):
                     seg_data.get_value('GE02'), 
                     self.st_count)
                 self._gs_error('5', err_str)
-            del self.loops[-1]
+            if self.loops:
+                del self.loops[-1]
         elif seg_id == 'SE':
             se_trn_control_num = seg_data.get_value('SE02')
-            if self.loops[-1][0] != 'ST' or \
-                    self.loops[-1][1] != se_trn_control_num:
+            # A SE without any open loop is reported as an ID mismatch
+            (loop_type, st_id) = self.loops[-1] if self.loops else (None, None)
+            if loop_type != 'ST' or st_id != se_trn_control_num:
                 err_str = 'SE id={} does not match ST id={}'.format(\
-                    se_trn_control_num, self.loops[-1][1])
+                    se_trn_control_num, st_id)
                 self._st_error('3', err_str)
             if self._int(seg_data.get_value('SE01')) != self.seg_count + 1:
                 err_str = 'SE count of {} for SE02={} is wrong. I count {}'.format(\
@@ -379,7 +386,8 @@ class X12Reader(X12Base):
                     se_trn_control_num, 
                     self.seg_count + 1)
                 self._st_error('4', err_str)
-            del self.loops[-1]
+            if self.loops:
+                del self.loops[-1]
 
     def __iter__(self):
         """
